@@ -145,17 +145,18 @@ def correspondence(ctx):
             ctx.corr("asm_mie_far(f2py)", "asmfar %s " % f2b(th) + fl(flat), impl_call(call), tol=5e-7,
                      inputs=dict(m=cx(m), x=x, theta=th), post=lambda outs: parse_floats(outs[0]) + [0.0, 0.0, 0.0, 0.0])
         elif k == 7:
-            # van de Hulst coefficients of the lens theories = conjugates of the textbook series (real index)
-            mr = float(np.real(m))
+            # van de Hulst coefficients of the lens theories at the CONJUGATE index = conjugates of the textbook series
+            # (theorem C02_vdh_conj_index; for a real index the conjugation of the index is void)
+            mc = complex(m) if (i // 10) % 2 else complex(float(np.real(m)), 0.0)
             xx = min(x, 40.0)
             ns = int(miescatlib.nstop(xx))
             ls = np.arange(1, ns + 1)
 
             def call():
-                al, bl = calculate_al_bl(mr, xx, ls)
+                al, bl = calculate_al_bl(np.conj(mc), xx, ls)
                 return T.cflat(np.concatenate([np.conj(al), np.conj(bl)]))
-            ctx.corr("calculate_al_bl vs textbook series", "miecoeffs %s %s %d %s %s" % (fl([mr, 0.0]), f2b(xx), ns, f2b(1e-2), f2b(1e-16)),
-                     impl_call(call), tol=1e-8, atol=1e-11, inputs=dict(m=mr, x=xx))
+            ctx.corr("calculate_al_bl vs textbook series", "miecoeffs %s %s %d %s %s" % (fl([mc.real, mc.imag]), f2b(xx), ns, f2b(1e-2), f2b(1e-16)),
+                     impl_call(call), tol=1e-8, atol=1e-11, inputs=dict(m=[mc.real, mc.imag], x=xx))
         elif k == 8:
             args = [complex(rng.normal(), rng.normal()) for _ in range(9)]
             ml, mlm1, ha, hb, d1z1, d3z1, d1z2, d3z2, q = args
@@ -207,19 +208,35 @@ def search(ctx):
                     if abs(S[j, 1, 1] - lf[j][0]) > 2e-6 * scale or abs(S[j, 0, 0] - lf[j][1]) > 2e-6 * scale:
                         ctx.violation("C02:mie-vs-textbook", "Lorenz-Mie scattering matrix differs from the independent textbook series (m=%r, x=%g)" % (m, x), info)
                         break
-                if m.imag == 0 and x > 0.05:
+                if x > 0.05:
+                    # van de Hulst's convention: the series of the lens theories at conj(m) is the conjugate of Bohren & Huffman's at m
+                    mv = m.real if m.imag == 0 else np.conj(m)
+                    if i % 16 < 8:
+                        # history: a deliberately truncated evaluation of the SAME particle first (a convergence study does that);
+                        # nothing computed for it may leak into the default evaluation that follows
+                        ctx.tried("python-series-after-truncated", (round(m.real, 4), round(x, 5)))
+                        MieScatteringMatrix(parallel_or_perpendicular="parallel" if i % 32 < 16 else "perpendicular", index_ratio=mv, size_parameter=x,
+                                            max_l=int(rng.integers(1, 4)))._eval(th)
                     for j, nm in ((1, "perpendicular"), (0, "parallel")):
-                        v = MieScatteringMatrix(parallel_or_perpendicular=nm, index_ratio=m.real, size_parameter=x)._eval(th)
+                        v = MieScatteringMatrix(parallel_or_perpendicular=nm, index_ratio=mv, size_parameter=x)._eval(th)
                         ref = np.conj(S[:, j, j])
                         if not (np.abs(v - ref).max() <= 2e-6 * scale + 1e-5 * np.abs(ref).max()):
                             ctx.violation("C02:python-series-vs-mie", "pure-Python Mie series (%s) differs from the Lorenz-Mie solver (m=%r, x=%g, rel %.3g)" % (nm, m, x, np.abs(v - ref).max() / scale), info)
             elif k == 1:
                 # fields: Mie vs Multisphere on a one-sphere cluster, options matched, near and far
-                m, x = rand_mx(rng, min(xmax, 30))
+                # 'in the supported size range': the multi-sphere solver's expansions are dimensioned for nod = 32 orders, which is what
+                # the Mie series needs (x + 4 x^(1/3) + 2) up to x = 19.5; above that the result degrades silently (5e-4 at x = 23.6 for a
+                # dense sphere near a resonance, 1e-3 at x = 28, 5-27 % at x = 30: recorded under C03 as a known finding, where the
+                # property speaks of every sphere)
+                m, x = rand_mx(rng, min(xmax, 19.5))
                 x = max(x, 0.05)
                 m = complex(m.real, min(m.imag, 0.05))
                 r = x / kwave
                 far = rng.random() < 0.5
+                if not far and x > 14.0:
+                    # just above the surface the series converges more slowly than in the far field: 32 orders give 3e-4 at x = 19
+                    x = 14.0 * x / 19.5
+                    r = x / kwave
                 z = float(r * rng.uniform(1.05, 3)) if not far else float(rng.uniform(20, 80))
                 sc = Sphere(n=m * T.NMED, r=r, center=(0.3, -0.2, z))
                 det = detector_points(x=rng.uniform(-2, 2, size=5) * (1 + r), y=rng.uniform(-2, 2, size=5) * (1 + r), z=0.0)
@@ -231,7 +248,13 @@ def search(ctx):
                 f2 = _flat_field(calc_field(det, Spheres([sc]), illum_polarization=pol,
                                             theory=Multisphere(compute_escat_radial=rad, eps=1e-10, qeps1=1e-9, qeps2=1e-12), **OPT))
                 dev = float(np.abs(f1 - f2).max() / max(1e-30, np.abs(f1).max()))
-                if not (dev <= 2e-4):      # measured up to 6e-5 at x = 27 with the tightened tolerances
+                # 'solver accuracy': SCSMFO holds the refractive index in single precision (mie1: ri = cmplx(sn, sk)); near a sharp
+                # resonance of a dense sphere that relative 6e-8 is amplified by the resonance's Q. The sensitivity of the Lorenz-Mie
+                # field to such a change of the index is measured and allowed for (3e-4 for m = 2.73 at x = 19.2, < 1e-6 ordinarily)
+                sc_p = Sphere(n=m * T.NMED * (1 + 1.2e-7), r=r, center=sc.center)
+                f1p = _flat_field(calc_field(det, sc_p, illum_polarization=pol, theory=Mie(compute_escat_radial=rad, full_radial_dependence=True), **OPT))
+                sens = float(np.abs(f1p - f1).max() / max(1e-30, np.abs(f1).max()))
+                if not (dev <= 2e-4 + 4 * sens):      # measured up to 6e-5 with the tightened tolerances
                     ctx.violation("C02:mie-vs-multisphere", "Mie and Multisphere (one-sphere cluster) fields differ by %.3g (m=%r, x=%g, radial=%r)" % (dev, m, x, rad),
                                   dict(kind="fields", m=cx(m), x=x, z=z, radial=rad, pol=list(pol)))
                 # asymptotic vs full radial dependence agree far away
